@@ -70,7 +70,7 @@ def run(ctx):
                             ctx.ob("R18.4", key + "/" + e.name, False, sites=[e.site], detail="unexpected ADMIN mutation %s" % e.name)
                     if e.kind == "write" and e.item == CFG:
                         n_cfg += 1
-                        check_cfg_write(ctx, p, key, ename, i, e, CFG)
+                        check_cfg_write(ctx, p, key, ename, i, e, CFG, ADMIN)
                 # R18.6 transfer gate
                 if ename == "execute" and variant == "Receive":
                     for i, e in enumerate(p.effects):
@@ -144,7 +144,7 @@ def check_allow(ctx, p, key, e):
     ctx.ob("R18.2", key + "/" + case, prob is None, detail=prob, sites=[e.site], sample={"case": case})
 
 
-def check_cfg_write(ctx, p, key, ename, i, e, CFG):
+def check_cfg_write(ctx, p, key, ename, i, e, CFG, ADMIN):
     if ename == "instantiate":
         ctx.ob("R18.5", key + "/initial config", True, trivial=True)
         return
@@ -154,6 +154,12 @@ def check_cfg_write(ctx, p, key, ename, i, e, CFG):
         base0, fields0 = update_base(e.value)
         lf0 = loaded_from(base0)
         keeps = lf0 is not None and lf0[0] == CFG and lf0[2] == e.ver and "default_gas_limit" not in fields0
+        if not keeps and lf0 is not None and lf0[0] == CFG and lf0[2] == e.ver and ADMIN is not None:
+            # ... or governance sets it: guarded like every governance action, to a value the path decided present (set, never unset)
+            nv = fields0["default_gas_limit"]
+            some = (nv[0] == "variant" and nv[2] == "Some") or any((c[0] == nv and c[1] == "Some") or (c[0] == ("is", nv, "Some") and c[1] is True)
+                                                                    for c in p.conds if c[3] <= i)
+            keeps = some and controller_admin_guard(p, ADMIN, SENDER, before=i)
         ctx.ob("R18.5", key + "/CONFIG written", keeps, sites=[e.site],
                detail="CONFIG written by %s as %s: not the stored configuration with default_gas_limit left as it is" % (ename, show(e.value)[:160]),
                sample={"changed": sorted(fields0)})
